@@ -18,7 +18,7 @@ from pyvc.spec import contract, class_spec, inline_ok, loop_invariant, REG
 from pyvc.values import Int, Bool, Str, ObjOf, SeqOf, Opt
 from pyvc.speclib import AND, OR, NOT, IMPLIES, IFF, EQ, ISINST, AS, smt
 from pyvc import speclib
-from .common import ANY, COMPOSITE, SERVICE, DELIMITED, SERIALIZABLE, STRING_X, RATIONAL_X, CONSTANT, ATTRIBUTE
+from .common import ANY, COMPOSITE, SERVICE, DELIMITED, SERIALIZABLE, STRING_X, RATIONAL_X, CONSTANT, ATTRIBUTE, BLS_IFACE_RAISES
 from . import expr as E
 
 P = ["C13"]
@@ -62,9 +62,10 @@ class _ServiceBls:
 class _BlsIface:
     returns = ObjOf(BLS)
     verify = False
-    assumed = ("interface contract (exception classes only): TypeError iff the receiver is a ServiceType - see "
-               "ServiceType.bit_length_set above; every other override returns a BitLengthSet (verified under C02, specs/c02.py)")
-    raises = {"TypeError": lambda s: is_service(s.self)}
+    assumed = ("projection of the C02 interface contract (specs/c02.py _BlsIface) onto exception classes: TypeError iff the "
+               "receiver is a ServiceType - the same clause object (specs/common.py BLS_IFACE_RAISES); what the result "
+               "denotes is not needed here")
+    raises = {"TypeError": BLS_IFACE_RAISES}
 
 
 @contract(BLS + ".max", props=PA_)
